@@ -345,9 +345,10 @@ func (v *visitor) FunctionNode(node *ast.FunctionNode) reflect.Type {
 				fn.IsVariadic() &&
 				fn.NumIn() == inputParamsCount &&
 				fn.NumOut() == 1 &&
-				fn.Out(0).Kind() == reflect.Interface {
+				fn.Out(0) == interfaceType {
 				rest := fn.In(fn.NumIn() - 1) // function has only one param for functions and two for methods
-				if rest.Kind() == reflect.Slice && rest.Elem().Kind() == reflect.Interface {
+				// The fast call asserts exactly func(...interface{}) interface{}.
+				if rest == arrayType && fn.Name() == "" {
 					node.Fast = true
 				}
 			}
